@@ -94,9 +94,16 @@ def Dec.norm (d : Dec) : Option Dec :=
   if d.range < 2 ^ 24 then
     match d.inp with
     | [] => none
-    | x :: r => some { range := d.range * 256, code := d.code * 256 + x, inp := r }
+    | x :: r => some { range := d.range * 256, code := (d.code * 256 + x) % 2 ^ 32, inp := r }
   else some d
 
+/-- One decoded bit.  The decoder works in uint32 exactly as the Go code / xz-utils do: `norm` truncates the
+    shifted `code`, and the direct bit is decided by the sign bit of the wrapped difference `code - range/2`.
+    `code < range` is NOT an invariant on corrupt input (odd `range`, `code = range - 1`, one direct bit).
+    NOTE: the wrapped difference is written `2 ^ 32 + d.code - r`, not `d.code + 2 ^ 32 - r`: `Nat.add`
+    recurses on its second argument, so with a symbolic `d.code` the first form is stuck at once, while the
+    second makes the kernel peel 2^32 successors when it has to compare two unfoldings (the equation lemmas
+    of `decTree` then take ten minutes and fail with "deep recursion"). -/
 def Dec.step (d : Dec) (p : Option Nat) : Option (Bool × Dec) :=
   match p with
   | some p =>
@@ -105,8 +112,9 @@ def Dec.step (d : Dec) (p : Option Nat) : Option (Bool × Dec) :=
     else ({ d with code := d.code - bound, range := d.range - bound } : Dec).norm.map (fun d' => (true, d'))
   | none =>
     let r := d.range / 2
-    if d.code < r then ({ d with range := r } : Dec).norm.map (fun d' => (false, d'))
-    else ({ d with code := d.code - r, range := r } : Dec).norm.map (fun d' => (true, d'))
+    let c := (2 ^ 32 + d.code - r) % 2 ^ 32          -- uint32(code - r)
+    if 2 ^ 31 ≤ c then ({ d with range := r } : Dec).norm.map (fun d' => (false, d'))    -- sign bit set: bit 0, code restored
+    else ({ d with code := c, range := r } : Dec).norm.map (fun d' => (true, d'))
 
 def Dec.decodeAll (d : Dec) : List (Option Nat) → Option (List Bool × Dec)
   | [] => some ([], d)
